@@ -243,8 +243,10 @@ class World5:
 
     @staticmethod
     def _ident(obj) -> tuple:  # noqa: ANN001
+        """(entry object, its Hop, the hop's Peer, the session keys) by identity + the peer's current address."""
         hop = obj.hop
-        return (obj, hop.peer.public_key.key_to_bin(), tuple(hop.peer.address), hop.keys)
+        peer = hop.peer
+        return (obj, hop, peer, hop.keys, tuple(peer.address))
 
     def _take_snapshot(self) -> None:
         self.snap = {}
@@ -269,14 +271,17 @@ class World5:
                         out.append((f"table-added:{t}", f"{n}.{t}[{key}] appeared (hop peer at "
                                                         f"{self._who(obj.hop.peer)})"))
                     continue
+                hop = obj.hop
+                if (obj is ref[0] and hop is ref[1] and hop.peer is ref[2] and hop.keys is ref[3]
+                        and tuple(hop.peer.address) == ref[4]):
+                    continue
                 now = self._ident(obj)
-                if now[0] is not ref[0] or now[1] != ref[1] or now[2] != ref[2] or now[3] is not ref[3]:
-                    what = (f"{n}.{t}[{key}] was replaced: hop peer {self._who_bin(ref[1])}@{ref[2]} -> "
-                            f"{self._who_bin(now[1])}@{now[2]}, same object: {now[0] is ref[0]}, "
-                            f"same session keys: {now[3] is ref[3]}")
-                    self.snap[e] = now
-                    self._taint(e)
-                    out.append((f"entry-replaced:{t}", what))
+                what = (f"{n}.{t}[{key}] was replaced: hop peer {self._who(ref[2])}@{ref[4]} -> "
+                        f"{self._who(now[2])}@{now[4]}, same object: {now[0] is ref[0]}, "
+                        f"same session keys: {now[3] is ref[3]}")
+                self.snap[e] = now
+                self._taint(e)
+                out.append((f"entry-replaced:{t}", what))
         for p in self.plans:
             if not self.live[p.index]:
                 continue
